@@ -912,6 +912,13 @@ impl Xot {
                 ));
             }
         }
+        // check this before anything is modified: a node cannot be moved
+        // into itself or into one of its own descendants
+        if self.ancestors(parent).any(|ancestor| ancestor == child) {
+            return Err(Error::InvalidOperation(
+                "Cannot move a node into itself or one of its descendants".into(),
+            ));
+        }
         Ok(())
     }
 
